@@ -419,6 +419,9 @@ def parse_table_shape(info: EnumInfo, g: DeriveGroup) -> ParseTable:
         m = H.match_on(tail)
     if m is None:
         ft = _fall_through(tail)
+        if ft.kind == "other":
+            # not the bare fall-through of an enum without arms: leave the expression to the decision-tree normaliser
+            raise Unrecognised("body of from_str is neither a match on the input nor a fall-through expression", tail)
     else:
         scrut_ok = H.is_local(m["scrut"], param=0)
         ft = None
